@@ -91,30 +91,24 @@ def serialise(val: int) -> bool:
     except Exception:  # pylint: disable=broad-except
         return True
     reach()
-    try:
-        tree = _tree(obj)
-    except NotRenderable as exc:
-        api.note('json.dumps cannot render the object: %s' % exc)
+    first = _render_checks(obj)
+    if first is None:
         return False
-    markdown = _markdown(obj)
-    if markdown is not None and not isinstance(markdown, str):
-        api.note('as_markdown() returns a %s, not text' % type(markdown).__name__)
-        return False
-    if P.get('NATIVE_JSON'):
-        text = json.dumps(obj)
-        if _plain(json.loads(text, object_pairs_hook=_pairs)) != _plain(tree):
-            api.note('json.dumps(obj) differs from the traversal the harness checks')
-            return False
-    if not hasattr(obj, 'compose'):
+    if first is TOLERATED or not hasattr(obj, 'compose'):
         return True
     try:
         again = cls.parse_exact_size(bytes(obj.compose()))
     except Exception:  # pylint: disable=broad-except
         return True         # C05's subject
-    if _plain(_tree(again)) != _plain(tree):
-        api.note('JSON differs after compose + parse', _plain(tree), _plain(_tree(again)))
+    second = _render_checks(again)
+    if second is None:
         return False
-    if _markdown(again) != markdown:
+    if second is TOLERATED:
+        return True
+    if _plain(second[0]) != _plain(first[0]):
+        api.note('JSON differs after compose + parse', _plain(first[0]), _plain(second[0]))
+        return False
+    if second[1] != first[1]:
         api.note('Markdown differs after compose + parse')
         return False
     return True
@@ -127,14 +121,21 @@ def _markdown(obj):
     return Serializable._markdown_result(obj)[1]  # pylint: disable=protected-access
 
 
+TOLERATED = ('tolerated', 'tolerated')
+
+
 def _render_checks(obj):
-    """JSON tree closed, Markdown is text; returns (tree, markdown) or None after noting the problem"""
+    """JSON tree closed, Markdown is text; returns (tree, markdown) or None after noting the problem; an exception
+    escaping the renderers is reported with its raise site (TOLERATED when that site is a listed known finding)"""
     try:
         tree = _tree(obj)
+        markdown = _markdown(obj)
     except NotRenderable as exc:
         api.note('json.dumps cannot render the object: %s' % exc)
         return None
-    markdown = _markdown(obj)
+    except Exception as exc:  # pylint: disable=broad-except
+        api.escaped(exc)
+        return TOLERATED
     if not isinstance(markdown, str):
         api.note('Markdown rendering is a %s, not text' % type(markdown).__name__)
         return None
@@ -159,6 +160,8 @@ def constructed(a: int, b: int, c: int, data: bytes, flag: bool) -> bool:
     first = _render_checks(obj)
     if first is None:
         return False
+    if first is TOLERATED:
+        return True
     try:
         again = type(obj).parse_exact_size(bytes(obj.compose()))
     except Exception:  # pylint: disable=broad-except
@@ -166,6 +169,8 @@ def constructed(a: int, b: int, c: int, data: bytes, flag: bool) -> bool:
     second = _render_checks(again)
     if second is None:
         return False
+    if second is TOLERATED:
+        return True
     if _plain(second[0]) != _plain(first[0]):
         api.note('JSON differs after compose + parse', first[0], second[0])
         return False
@@ -301,6 +306,8 @@ def set_order(i: int) -> bool:
     first, second = _render_checks(one), _render_checks(two)
     if first is None or second is None:
         return False
+    if first is TOLERATED or second is TOLERATED:
+        return True
     if _plain(first[0]) != _plain(second[0]) or first[1] != second[1]:
         api.note('equal objects render differently: the set was filled in another order')
         return False
